@@ -94,6 +94,7 @@ def flat(v):
 
 class Pattern(Interp):
     name = "PATTERN"
+    SELF_COPY_NOOP = True
     # frozen exception (DESIGN.md 3.2): the chain-shortcut dispatch compares values
     EXEMPT_FUNCS = {"sempler.utils.is_chain_graph": "value test that only selects the chain shortcut; a weighted chain "
                                                     "takes the general path (undecided clause of C07/C10)"}
